@@ -579,6 +579,11 @@ class Preempt:
         def global_trace(frame, event, arg):
             if event != "call" or not self._is_repo(frame.f_code.co_filename):
                 return None
+            if not frame.f_code.co_flags & 0x1:
+                # module and class bodies run on first import only: whether
+                # that happens inside the traced region depends on what the
+                # process imported before, so they are never points
+                return None
             func = frame.f_code.co_name
             inv = counters.get(func, 0)
             counters[func] = inv + 1
